@@ -3,6 +3,7 @@ package c16
 import (
 	"fmt"
 	"strings"
+	"sync/atomic"
 	"testing"
 	"time"
 
@@ -35,6 +36,10 @@ type CapSpec struct {
 	Entry     string        `json:"entry"`     // record | backchannel | stream
 	Transport string        `json:"transport"` // tcp | udp
 	Extra     int           `json:"extra"`     // writes beyond the capacity
+	// RefusedPause (entry record): before the burst the client calls Pause and the server refuses it
+	// (455): the session keeps recording, and what is accepted afterwards must still be executed -
+	// a handful of packets written one by one must reach the server.
+	RefusedPause bool `json:"refused_pause,omitempty"`
 	Net       simnet.Config `json:"net"`
 }
 
@@ -46,6 +51,9 @@ func genCap(seed uint64) Scenario {
 		Entry:     []string{"record", "backchannel", "stream"}[r.Intn(3)],
 		Transport: []string{"tcp", "udp"}[r.Intn(2)],
 		Extra:     r.Range(1, 6),
+	}
+	if sc.CapSpec.Entry == "record" && r.Bool(0.4) {
+		sc.CapSpec.RefusedPause = true
 	}
 	nc := simnet.Config{Seed: seed ^ 0x16161616}
 	nc.LatMinUS = r.Pick(10, 100, 1000)
@@ -72,7 +80,7 @@ func runCap(t *testing.T, sc Scenario) *core.Result {
 	opts := sys.Options{Seed: sc.Seed, Net: cs.Net, MaxSteps: 400000, Horizon: 10 * time.Minute}
 	var sample map[string]any
 	res := sys.Run(t, opts, func(w *sys.World) {
-		w.ProbeInit("cap_record", "cap_backchannel", "cap_stream", "cap_refusal_at_capacity")
+		w.ProbeInit("cap_record", "cap_backchannel", "cap_stream", "cap_refusal_at_capacity", "cap_refused_pause")
 		srvNode := w.Net.Node("srv", "10.0.0.1")
 		cliNode := w.Net.Node("cli", "10.0.0.20")
 		h := sys.NewHandler(w)
@@ -94,6 +102,16 @@ func runCap(t *testing.T, sc Scenario) *core.Result {
 			return
 		}
 		h.SetStream("/stream", stream)
+		if cs.RefusedPause {
+			h.StatusFor = func(m base.Method, _ string) base.StatusCode {
+				if m == base.Pause {
+					return base.StatusMethodNotValidInThisState
+				}
+				return 0
+			}
+		}
+		var srvGot atomic.Int32
+		h.OnRTP = func(*gortsplib.ServerSession, *description.Media, format.Format, *rtp.Packet) { srvGot.Add(1) }
 
 		w.Go("client", func() {
 			defer srv.Close()
@@ -138,6 +156,27 @@ func runCap(t *testing.T, sc Scenario) *core.Result {
 					return
 				}
 				time.Sleep(200 * time.Millisecond) // anything queued at start-up has been sent
+				if cs.RefusedPause {
+					if _, err := c.Pause(); err == nil {
+						w.Fail("c16/harness client", "Pause succeeded although the handler refuses it")
+						return
+					}
+					w.Probe("cap_refused_pause")
+					before := srvGot.Load()
+					okw := 0
+					for k := 0; k < 5; k++ {
+						if err := c.WritePacketRTP(pd.Medias[0], pkt(96, 1000+k)); err == nil {
+							okw++
+						}
+						time.Sleep(20 * time.Millisecond)
+					}
+					time.Sleep(200 * time.Millisecond)
+					if got := int(srvGot.Load() - before); okw > 0 && got < okw {
+						w.Fail("c16/executed after-refused-pause", "record over %s: after a PAUSE that the server refused (455) %d packets were accepted by Client.WritePacketRTP one by one, but only %d reached the server: accepted items were not executed",
+							cs.Transport, okw, got)
+						return
+					}
+				}
 				w.Probe("cap_record")
 				for k := 0; k < n; k++ {
 					if err := c.WritePacketRTP(pd.Medias[0], pkt(96, k)); err != nil {
